@@ -182,8 +182,10 @@ def run(ctx):
         want_top = f"{Gp}.edges[{e0v}][NetworkNames.TOPOLOGY]"
         if sorted(got) == ["get_u0v1", "get_v0u1"]:
             o.holds(sw, aug, "numerator = ejks[T][key(u0, v1)] * ejks[T][key(v0, u1)]: exactly the two pairings the swap creates")
-        else:
+        elif all(g_ in ("get_u0v1", "get_v0u1", "get_u0u1", "get_u1u0", "get_v0v1", "get_v1v0") for g_ in got):
             o.violated(sw, aug, f"numerator looks up {sorted(got)}; the swap creates the pairings (u0, v1) and (v0, u1), whose keys are get_u0v1 / get_v0u1")
+        else:
+            o.undecided(f"numerator keys {sorted(got)} are not read through the key view's accessors: not recognised", sw, aug)
         if tops == {want_top}:
             o.holds(sw, aug, f"both looked up in the target matrix of the edge's own topology")
         else:
